@@ -12,14 +12,14 @@ CHECKS = {
     "C03": dict(
         engine="streamsim",
         technique=TECH + "query/update histories with injected spurious queries, twin-world comparison + state snapshots, ddmin-style minimisation, JSON replay",
-        text="Seeded exploration of histories of interleaved query/update calls on every exported stream strategy and budget manager (stub or real classifier peer). Each history is executed twice on equal-parameter objects, with and without scheduler-injected spurious queries (duplicates of the pending query, foreign candidates, other chunk sizes or feature counts, before lazy initialisation, between a query and its update; histories may begin with an update so that query, not update, creates the fitted attributes); any difference in any later result, any difference between repeated identical queries and any change of a fitted attribute across an injected query is a violation. Evidence, not proof: the space of histories is sampled.",
+        text="Seeded exploration of histories of interleaved query/update calls on every exported stream strategy and budget manager (stub or real classifier peer). Each history is executed twice on equal-parameter objects, with and without scheduler-injected spurious queries (duplicates of the pending query, foreign candidates, other chunk sizes or feature counts, before lazy initialisation, between a query and its update; histories may begin with an update so that query, not update, creates the fitted attributes; reports of some chunks are lost; with random_state=None numpy's global generator counts as state; the training window may be a buffer the caller overwrites in place); any difference in any later result, any difference between repeated identical queries and any change of a fitted attribute across an injected query is a violation. Evidence, not proof: the space of histories is sampled.",
         note="Trusted: the honest-caller driver, the stub classifier (stateless by construction), numpy's RandomState. Attributes re-derived from constructor parameters on each call (n_features_in_, budget_, dist_func_, dist_func_dict_) are not counted as state.",
         design="4/C03",
     ),
     "C04": dict(
         engine="streamsim",
         technique=TECH + "adversarial and corrupted utility streams x chunkings, checked per grant against a reference model of the budget estimate and against the stated prefix bound",
-        text="Seeded exploration of adversarial utility streams (maximal, constant, bursts, near-threshold, NaN/inf corrupted) x budgets x windows x chunkings x spurious queries for the five window-based managers, the density-based split manager, periodic sampling, random sampling without budget exceeding and the Zliobaite/density/cognitive strategies as pass-throughs. A small reference model recomputes the running estimate from the observed grants and flags any grant made while the estimate is not below the budget; the stated prefix bound is checked at every n. Histories include a warm-up update before the first query and set_params re-configuration of a used manager (budget, window).",
+        text="Seeded exploration of adversarial utility streams (maximal, constant, bursts, near-threshold, NaN/inf corrupted) x budgets x windows x chunkings x spurious queries for the five window-based managers, the density-based split manager, periodic sampling, random sampling without budget exceeding and the Zliobaite/density/cognitive strategies as pass-throughs. A small reference model recomputes the running estimate from the observed grants and flags any grant made while the estimate is not below the budget; the stated prefix bound is checked at every n. Histories include a warm-up update before the first query, set_params re-configuration of a used manager (budget, window), hand-over of the used manager to a re-created strategy and refused-then-repeated update reports.",
         note="Trusted: the reference recurrences (taken from the property statement and the class docstrings), honest caller. Density/cognitive strategies are driven one instance per call (within a chunk they consult the manager without committing).",
         design="4/C04",
     ),
@@ -40,7 +40,7 @@ CHECKS = {
     "C05": dict(
         engine="poolsim",
         technique=TECH + "operation sequences on long-lived strategy/model/array objects with a frame monitor (arrays, get_params by value, model fingerprint, clone, pickle) after every call",
-        text="One strategy object, one set of model objects and the caller's arrays live through a seeded sequence of queries: with and without labelling in between, with fit_* on and off (caller-fitted model), with sample_weight / utility_weight / index and feature-row candidates where supported, on a second data set of other size and scale, and with every lazily resolved default left unset. After every call (also a call that raised) the monitor compares all arrays byte-wise, get_params(deep=True) by value with the construction-time snapshot, a structural fingerprint of the model argument, and re-checks sklearn.clone and pickle; at the end of the history the used strategy, its clone and its pickle round trip must answer one more query identically (\"a clone behaves like the original\").",
+        text="One strategy object, one set of model objects and the caller's arrays live through a seeded sequence of queries: with and without labelling in between, with fit_* on and off (caller-fitted model), with sample_weight / utility_weight / index and feature-row candidates where supported, on a second data set of other size and scale, and with every lazily resolved default left unset. The caller's model is a transparent proxy: from each of its call-backs the caller's arrays are compared with their value at call time while the query is still running, and one call-back per scheduled operation fails (injected collaborator failure in the middle of a query). After every call (also a call that raised) the monitor compares all arrays byte-wise, get_params(deep=True) by value with the construction-time snapshot, a structural fingerprint of the model argument, and re-checks sklearn.clone and pickle; at the end of the history the used strategy, its clone and its pickle round trip must answer one more query identically (\"a clone behaves like the original\").",
         note="The position of a model's own tie-break generator is excluded from the fingerprint (predict is specified to draw from it). Exceptions are outside the property and only counted.",
         design="4/C05",
     ),
@@ -82,7 +82,7 @@ CHECKS = {
     "C20": dict(
         engine="parsim",
         technique=TECH + "joblib task orders, worker isolation (pickle round trip), baton-scheduled real threads with seeded pre-emption at line events inside skactiveml, simulated CPU counts; comparison with the sequentially queried wrapped strategy",
-        text="NARROWED CLAIM: the parallel-wrapper clause. ParallelUtilityEstimationWrapper runs on a simulated joblib backend selected through its own parallel_dict: tasks are executed in a seeded permutation, optionally each behind a cloudpickle/pickle round trip (process semantics), or as real threads of which a baton lets exactly one run while a sys.settrace hook pre-empts at up to six seeded task-local line counts inside skactiveml code; joblib.cpu_count as seen by the wrapper is simulated (1..64) and n_jobs ranges over 1..candidates+3, -1, -2. The wrapper must not raise where the wrapped strategy answers, must return the wrapped strategy's utilities (1e-12) and a pick that attains their maximum and, for equal seeds, equals the wrapped strategy's pick. The sub-sampling and single-annotator wrapper clauses are pure functions of the seed and are not decided by this technique.",
+        text="NARROWED CLAIM: the parallel-wrapper clause. ParallelUtilityEstimationWrapper runs on a simulated joblib backend selected through its own parallel_dict: tasks are executed in a seeded permutation, optionally each behind a cloudpickle/pickle round trip (process semantics), or as real threads of which a baton lets exactly one run while a sys.settrace hook pre-empts at up to six seeded task-local line counts inside skactiveml code; joblib.cpu_count as seen by the wrapper is simulated (1..64) and n_jobs ranges over 1..candidates+3 and negative values; index candidates may include labelled samples; parallel_dict may carry its own n_jobs entry. The wrapper must not raise where the wrapped strategy answers, must return the wrapped strategy's utilities (1e-12) and a pick that attains their maximum and, for equal seeds, equals the wrapped strategy's pick. The sub-sampling and single-annotator wrapper clauses are pure functions of the seed and are not decided by this technique.",
         note="Inner strategies: whitelist of strategies whose candidate utilities are independent of the other candidates; a divergence is reported only after the same chunks evaluated sequentially by the harness agree with the unchunked query. Pick equality only when the utilities are bit-identical or the top-two gap is clear, and only when the wrapped strategy's own pick is a function of (utilities, seed). Pre-emption granularity is a Python line inside skactiveml; loky is represented by pickle isolation.",
         design="4/C20",
     ),
